@@ -1,4 +1,5 @@
 //! Bounded stand-in / failing-input search for unit U13 (insertion / lookup) — NOT a proof.
+//! functions: EGraph::add EGraph::add_internal EGraph::lookup EGraph::lookup_internal EGraph::mk_sem_applied_id EGraph::shape EGraph::shape_called_from_add
 //! Bound: all terms of depth <= 2 over {var, app, lam} with slots from {$x, $y} (about 300 terms), each inserted
 //! into a fresh e-graph together with up to two earlier terms; re-insertion literally, alpha-renamed and with
 //! renamed free slots; plus lookups through a stored node with a redundant slot (a ternary node united with a binary
